@@ -851,9 +851,21 @@ class DigitStr:
         raise Inconclusive('DigitStr.rstrip(%r)' % (chars,))
 
     def upper(self):
-        return self
+        return DigitStr([c.upper() if _isinstance(c, _str) else (('H', c[1]) if c[0] == 'h' else c)
+                         for c in self.ch])
 
-    lower = upper
+    def lower(self):
+        return DigitStr([c.lower() if _isinstance(c, _str) else (('h', c[1]) if c[0] == 'H' else c)
+                         for c in self.ch])
+
+    def zfill(self, width):
+        n = _idx(width) - _len(self.ch)
+        if n <= 0:
+            return self
+        first = self.ch[0] if self.ch else None
+        if first in ('-', '+'):
+            return DigitStr([first] + ['0'] * n + self.ch[1:])
+        return DigitStr(['0'] * n + self.ch)
 
     def encode(self, *a):
         return self
@@ -946,10 +958,13 @@ class DigitStr:
     def __repr__(self):
         return '<digits %d>' % _len(self.ch)
 
-    __str__ = __repr__
+    def __str__(self):
+        return E().registry_digits(self)
 
     def __format__(self, spec):
-        return '<digits>'
+        if spec not in ('', 's'):
+            raise Inconclusive('format spec %r on digit string' % spec)
+        return E().registry_digits(self)
 
 
 # ---------------------------------------------------------------------------
@@ -1818,9 +1833,166 @@ def _registry_int(self, symstr, base):
     raise Inconclusive('int() of symbolic str')
 
 
+BIT_BASE = 0xF0000      # plane-15 private use: one code point per symbolic binary digit
+
+
+def _case_pairs(limit=1024):
+    """lower-case letters (outside every script the harnesses use in values) whose upper-case
+    twin is a single, different, round-tripping character: placeholders for symbolic hex
+    digits, so that a native ``.upper()`` / ``.lower()`` on formatted text stays observable"""
+    out = []
+    for cp in range(0x2C30, 0x1F000):
+        ch = _chr(cp)
+        if not ch.islower():
+            continue
+        up = ch.upper()
+        if _len(up) == 1 and up != ch and up.lower() == ch and up.upper() == up and ch.lower() == ch \
+                and _ord(up) >= 0x2C00:
+            out.append(ch)
+            if _len(out) >= limit:
+                break
+    return out
+
+
+HEX_LOWER = _case_pairs()
+HEX_UPPER = [c.upper() for c in HEX_LOWER]
+_HEX_LOWER_IDX = {c: i for i, c in enumerate(HEX_LOWER)}
+_HEX_UPPER_IDX = {c: i for i, c in enumerate(HEX_UPPER)}
+
+
+def _registry_digits(self, ds):
+    bits = self.registry.setdefault('bits', [])
+    nibbles = self.registry.setdefault('nibbles', [])
+    out = []
+    for c in ds.ch:
+        if _isinstance(c, _str):
+            out.append(c)
+            continue
+        kind, e = c
+        if kind == 'b':
+            bits.append(e)
+            out.append(_chr(BIT_BASE + _len(bits) - 1))
+        else:
+            if _len(nibbles) >= _len(HEX_LOWER):
+                raise Inconclusive('too many placeholder hex digits')
+            nibbles.append(e)
+            out.append((HEX_UPPER if kind == 'H' else HEX_LOWER)[_len(nibbles) - 1])
+    return ''.join(out)
+
+
+def has_placeholder(s):
+    """does a genuine str contain placeholder characters (symbolic content)?"""
+    for ch in s:
+        o = _ord(ch)
+        if o < 0x2C00:
+            continue
+        if CHAR_BASE <= o < 0xF800 or ch == TOKEN_OPEN or ch == TOKEN_CLOSE or BIT_BASE <= o < BIT_BASE + 0x10000 \
+                or ch in _HEX_LOWER_IDX or ch in _HEX_UPPER_IDX:
+            return True
+    return False
+
+
+def text_items(s):
+    """genuine str with placeholders -> list of items: a concrete character,
+    ('chr', BV21), ('bit', BV1), ('hex', BV4, is_upper) or ('int', SymInt)"""
+    reg = E().registry
+    chars, toks = reg.get('chars', []), reg.get('tokens', [])
+    bits, nibbles = reg.get('bits', []), reg.get('nibbles', [])
+    out = []
+    i, n = 0, _len(s)
+    while i < n:
+        ch = s[i]
+        o = _ord(ch)
+        if ch == TOKEN_OPEN:
+            j = s.index(TOKEN_CLOSE, i)
+            out.append(('int', toks[_int(s[i + 1:j])]))
+            i = j + 1
+            continue
+        if CHAR_BASE <= o < CHAR_BASE + _len(chars):
+            out.append(('chr', chars[o - CHAR_BASE]))
+        elif BIT_BASE <= o < BIT_BASE + _len(bits):
+            out.append(('bit', bits[o - BIT_BASE]))
+        elif ch in _HEX_LOWER_IDX and _HEX_LOWER_IDX[ch] < _len(nibbles):
+            out.append(('hex', nibbles[_HEX_LOWER_IDX[ch]], False))
+        elif ch in _HEX_UPPER_IDX and _HEX_UPPER_IDX[ch] < _len(nibbles):
+            out.append(('hex', nibbles[_HEX_UPPER_IDX[ch]], True))
+        else:
+            out.append(ch)
+        i += 1
+    return out
+
+
+_WS = ''.join(_chr(c) for c in range(0x3001) if _chr(c).isspace())
+
+
+def _strip_side(items, chars, left):
+    """number of items stripped from one side of a placeholder text"""
+    seq = items if left else items[::-1]
+    k = 0
+    for it in seq:
+        if _isinstance(it, _str):
+            if it in chars:
+                k += 1
+                continue
+            break
+        if it[0] == 'chr':
+            cond = z3.Or([it[1] == _ord(c) for c in chars])
+            if E().branch(cond):
+                k += 1
+                continue
+            break
+        if it[0] == 'int':
+            if any(c in '-0123456789' for c in chars):
+                raise Inconclusive('strip of digits from a decimal token')
+            break
+        if any(c in '0123456789abcdefABCDEF' for c in chars):
+            raise Inconclusive('strip of digits from a digit placeholder')
+        break
+    return k
+
+
+INSPECTING = frozenset((
+    'upper lower strip lstrip rstrip replace split rsplit find rfind index rindex count '
+    'startswith endswith partition rpartition splitlines translate title capitalize swapcase casefold isdigit '
+    'isalpha isalnum isspace isupper islower isnumeric isdecimal isidentifier isprintable isascii zfill center '
+    'ljust rjust expandtabs removeprefix removesuffix').split())
+
+
+def text_method(recv, method, args):
+    """an inspecting ``str`` method called by the analysed code on a genuine str: executed
+    natively unless the text carries placeholders, in which case it is modelled (case mapping of
+    digit placeholders, strip with a solver-decided boundary) or the path is inconclusive"""
+    if type(recv) is not _str or Engine.cur is None or not has_placeholder(recv):
+        return getattr(recv, method)(*args)
+    if method in ('upper', 'lower'):
+        if any(CHAR_BASE <= _ord(c) < 0xF800 for c in recv):
+            raise Inconclusive('str.%s() over symbolic characters of a formatted text' % method)
+        return getattr(recv, method)()
+    if method in ('strip', 'lstrip', 'rstrip') and _len(args) <= 1:
+        chars = args[0] if args and args[0] is not None else _WS
+        if type(chars) is not _str:
+            raise Inconclusive('str.%s(%r) on formatted text' % (method, chars))
+        # one item per raw character (token delimiters stand for the token: never strippable)
+        raw = list(recv)
+
+        def item(ch):
+            if ch in (TOKEN_OPEN, TOKEN_CLOSE):
+                return ('int', None)
+            return text_items(ch)[0]
+        items = [item(c) for c in raw]
+        a, b = 0, _len(raw)
+        if method in ('strip', 'lstrip'):
+            a = _strip_side(items, chars, True)
+        if method in ('strip', 'rstrip'):
+            b = _len(raw) - _strip_side(items[a:], chars, False)
+        return recv[a:b] if b > a else ''
+    raise Inconclusive('str.%s() inspects formatted text that carries symbolic content' % method)
+
+
 Engine.registry_token = _registry_token
 Engine.registry_text = _registry_text
 Engine.registry_int = _registry_int
+Engine.registry_digits = _registry_digits
 Engine.hash_strs = ()
 
 PROXIES = (SymInt, SymBool, SymBytes, SymStr, DigitStr, SymText, IntToken)
